@@ -83,8 +83,11 @@ def _repo_src():
 
 def _ast_hash(path):
     import ast
+    import warnings
     try:
-        tree = ast.parse(open(path).read())
+        with warnings.catch_warnings():
+            warnings.simplefilter("ignore")
+            tree = ast.parse(open(path).read())
     except Exception as e:
         return f"unparsable:{type(e).__name__}"
     for node in ast.walk(tree):
@@ -237,6 +240,15 @@ class CheckRun:
         for i, t in enumerate(printed):
             self.assumptions_out[t] = pa[i] if i < len(pa) else "?"
         return rc == 0, out, errtxt
+
+    def coqchk(self):
+        """Thorough tier: re-check the property's compiled closure with the independent checker and record its axiom report."""
+        p = subprocess.run(["timeout", "1500", "coqchk", "-silent", "-o", "-Q", "theories", "Viv", "-Q", "props", "VivProps",
+                            f"VivProps.{self.prop}"], capture_output=True, text=True, cwd=COQ)
+        txt = (p.stdout + p.stderr)
+        summary = txt[txt.find("CONTEXT SUMMARY"):][:1500] if "CONTEXT SUMMARY" in txt else txt[-1500:]
+        self.assumptions_out["coqchk -o (closure of props/%s.vo)" % self.prop] = " ".join(summary.split())
+        self.obligation(f"coqchk -o VivProps.{self.prop} (independent re-check of the .vo closure)", p.returncode == 0, txt[-1500:])
 
     # ---- streams ---------------------------------------------------------------------------------------
     def run_stream(self, s: Stream):
@@ -475,4 +487,6 @@ def main_for(module, argv):
             run.run_stream(s)
         if hasattr(module, "extra"):
             module.extra(run)
+        if tier == "thorough" and not os.environ.get("VERIF_SKIP_COQCHK"):
+            run.coqchk()
     return run.finish(module, getattr(module, "LEVEL_NOTE", ""))
